@@ -479,6 +479,35 @@ fn check_kitty_key(out: &mut Vec<Fail>, params: &[u8], name: KeyName, mode: KeyM
     }
 }
 
+/// DEC private mode numbers (xterm ctlseqs / the synchronized-output and bracketed-paste specifications), by
+/// variant name: not the crate's discriminants
+fn dec_mode_number(m: surf_n_term::terminal::DecMode) -> u64 {
+    use surf_n_term::terminal::DecMode::*;
+    match m {
+        VisibleCursor => 25,
+        AutoWrap => 7,
+        SixelScrolling => 80,
+        MouseReport => 1000,
+        MouseMotions => 1003,
+        MouseSGR => 1006,
+        AltScreen => 1049,
+        SynchronizedOutput => 2026,
+        BracketedPaste => 2004,
+    }
+}
+
+/// DECRPM status values (VT510 manual)
+fn dec_status_number(s: surf_n_term::terminal::DecModeStatus) -> u64 {
+    use surf_n_term::terminal::DecModeStatus::*;
+    match s {
+        NotRecognized => 0,
+        Enabled => 1,
+        Disabled => 2,
+        PermanentlyEnabled => 3,
+        PermanentlyDisabled => 4,
+    }
+}
+
 fn hex_pairs(text: &[u8]) -> Option<String> {
     if text.len() % 2 != 0 {
         return None;
@@ -530,7 +559,7 @@ pub fn check_event(out: &mut Vec<Fail>, seg: &[u8], ev: &TerminalEvent) -> &'sta
             check_mod_range(out, "key", key.mode);
             if let KeyName::Char(c) = key.name {
                 check_char(out, seg, c);
-                if !seg.is_empty() && (seg[0] >= 0x80 || ((0x20..=0x7e).contains(&seg[0]) && key.mode == KeyMod::EMPTY)) {
+                if !seg.is_empty() && (seg[0] >= 0x80 || ((0x20..=0x7e).contains(&seg[0]) && mod_bits(key.mode) == 0)) {
                     if !check_utf8_char(out, seg, c) {
                         fail(out, "character decoded from bytes that are not one UTF-8 sequence", "one well formed sequence", verif_harness::out::hex(seg));
                     }
@@ -613,8 +642,8 @@ pub fn check_event(out: &mut Vec<Fail>, seg: &[u8], ev: &TerminalEvent) -> &'sta
             match csi(seg) {
                 Some((Some(b'?'), params, b"$", b'y')) => match nums_strict(params, 2) {
                     Some(v) => {
-                        if Some(*mode as u64) != v[0].exact || Some(*status as u64) != v[1].exact {
-                            fail(out, "DEC mode report fields differ from the transmitted numbers", format!("mode {} status {}", show_param(v[0]), show_param(v[1])), format!("mode {} status {}", *mode as u64, *status as u64));
+                        if Some(dec_mode_number(*mode)) != v[0].exact || Some(dec_status_number(*status)) != v[1].exact {
+                            fail(out, "DEC mode report fields differ from the transmitted numbers", format!("mode {} status {}", show_param(v[0]), show_param(v[1])), format!("mode {mode:?} status {status:?}"));
                         }
                     }
                     None => unexplained(out, "DEC mode report", seg, &shown()),
